@@ -402,6 +402,83 @@ fn dump_fn<'tcx>(cx: &mut Ctx<'tcx>, did: DefId, kind: DefKind) -> J {
     if !rawderefs.is_empty() {
         o.push(("rawderefs", J::Arr(rawderefs)));
     }
+    // detailed raw-pointer accesses: [line, bb, pointer local, "mut"|"const", "r"|"w"|"ref"|"refmut"]
+    // over every place mentioned by a statement or terminator operand
+    let mut rawd: Vec<J> = Vec::new();
+    for (bb, data) in body.basic_blocks.iter_enumerated() {
+        if data.is_cleanup {
+            continue;
+        }
+        let mut visit = |pl: &Place<'tcx>, sp: Span, kind: &str| {
+            let mut pty = mir::PlaceTy::from_ty(body.local_decls[pl.local].ty);
+            for elem in pl.projection.iter() {
+                if matches!(elem, ProjectionElem::Deref) && pty.ty.is_raw_ptr() {
+                    let m = if pty.ty.is_mutable_ptr() { "mut" } else { "const" };
+                    rawd.push(J::Arr(vec![
+                        J::i(tcx.sess.source_map().lookup_char_pos(sp.lo()).line),
+                        J::i(bb.as_usize()),
+                        J::i(pl.local.as_usize()),
+                        J::s(m),
+                        J::s(kind),
+                    ]));
+                }
+                pty = pty.projection_ty(tcx, elem);
+            }
+        };
+        let mut visit_op = |op: &Operand<'tcx>, sp: Span, visit: &mut dyn FnMut(&Place<'tcx>, Span, &str)| {
+            if let Operand::Copy(p) | Operand::Move(p) = op {
+                visit(p, sp, "r");
+            }
+        };
+        for st in data.statements.iter() {
+            if let StatementKind::Assign(b) = &st.kind {
+                let (pl, rv) = &**b;
+                let sp = st.source_info.span;
+                visit(pl, sp, "w");
+                match rv {
+                    Rvalue::Use(op, ..) | Rvalue::Repeat(op, _) | Rvalue::UnaryOp(_, op) | Rvalue::Cast(_, op, _) => {
+                        visit_op(op, sp, &mut visit)
+                    }
+                    Rvalue::BinaryOp(_, ops) => {
+                        visit_op(&ops.0, sp, &mut visit);
+                        visit_op(&ops.1, sp, &mut visit);
+                    }
+                    Rvalue::Aggregate(_, ops) => {
+                        for op in ops.iter() {
+                            visit_op(op, sp, &mut visit);
+                        }
+                    }
+                    Rvalue::Ref(_, bk, p) => {
+                        let k = if matches!(bk, mir::BorrowKind::Mut { .. }) { "refmut" } else { "ref" };
+                        visit(p, sp, k)
+                    }
+                    Rvalue::RawPtr(rk, p) => {
+                        let k = if format!("{:?}", rk).contains("Mut") { "refmut" } else { "ref" };
+                        visit(p, sp, k)
+                    }
+                    Rvalue::CopyForDeref(p) | Rvalue::Discriminant(p) => visit(p, sp, "r"),
+                    _ => {}
+                }
+            }
+        }
+        let term = data.terminator();
+        let sp = term.source_info.span;
+        match &term.kind {
+            TerminatorKind::Call { func, args, destination, .. } => {
+                visit_op(func, sp, &mut visit);
+                for a in args.iter() {
+                    visit_op(&a.node, sp, &mut visit);
+                }
+                visit(destination, sp, "w");
+            }
+            TerminatorKind::SwitchInt { discr, .. } => visit_op(discr, sp, &mut visit),
+            TerminatorKind::Assert { cond, .. } => visit_op(cond, sp, &mut visit),
+            _ => {}
+        }
+    }
+    if !rawd.is_empty() {
+        o.push(("rawd", J::Arr(rawd)));
+    }
     J::obj(o)
 }
 
